@@ -185,6 +185,125 @@ impl PairTable {
         &&& 4 * self.num_items <= 3 * self.slots@.len()
     }
 
+    fn new(lg_size: u8, num_valid_bits: u8) -> (r: Self)
+      requires 2 <= lg_size <= 26, lg_size + 1 <= num_valid_bits <= 32
+      ensures /*@C05.pairtable.new.slots*/ pall_empty(r.slots@, lg_size),
+        r.lg_size == lg_size, r.num_valid_bits == num_valid_bits, r.num_items == 0,
+        /*@C05.pairtable.new.wf*/ r.wf(),
+        /*@C05.pairtable.new.empty*/ r.items() =~= ISet::<u32>::empty(),
+    {
+        assert!((2..=26).contains(&lg_size));
+        assert!(((lg_size + 1)..=32).contains(&num_valid_bits));
+        proof {
+            lemma_pshl_us(lg_size);
+            assert forall|ss: Seq<u32>| #[trigger] pall_empty(ss, lg_size) implies ptbl_ok(ss, num_valid_bits, lg_size) && pocc(ss).len() == 0
+                && ISet::new(|c: u32| c != EMPTY && pholds(ss, c)) =~= ISet::<u32>::empty() by {
+                lemma_pempty_ok(ss, num_valid_bits, lg_size); lemma_items_none(ss);
+            }
+        }
+        Self {
+            lg_size,
+            num_valid_bits,
+            num_items: 0,
+            slots: vec![u32::MAX; 1 << lg_size],
+        }
+    }
+
+    fn clear(&mut self)
+      requires old(self).wf(),
+      ensures /*@C05.pairtable.clear.wf*/ final(self).wf(), final(self).num_valid_bits == old(self).num_valid_bits, final(self).lg_size == old(self).lg_size,
+        final(self).num_items == 0,
+        /*@C05.pairtable.clear.empty*/ final(self).items() =~= ISet::<u32>::empty(),
+    {
+        self.slots.fill(u32::MAX);
+        self.num_items = 0;
+        proof { lemma_pempty_ok(self.slots@, self.num_valid_bits, self.lg_size); lemma_items_none(self.slots@); }
+    }
+
+    fn unwrapping_get_items(&self) -> (res: Vec<u32>)
+      requires self.wf(),
+      ensures /*@C05.pairtable.get_items.len*/ res@.len() == self.num_items,
+        /*@C05.pairtable.get_items.set*/ forall|x: u32| res@.contains(x) <==> self.items().contains(x),
+        /*@C05.pairtable.get_items.distinct*/ res@.no_duplicates(),
+    {
+        let ghost ss = self.slots@;
+        let ghost n = self.num_items as int;
+        let ghost nvb = self.num_valid_bits; let ghost lg = self.lg_size;
+        if self.num_items == 0 {
+            proof { lemma_pocc_none(ss); lemma_items_none(ss); }
+            return vec![];
+        }
+
+        proof { lemma_pshl_us(self.lg_size); lemma_pow2_strictly_increases(1, self.lg_size as nat); lemma2_to64(); }
+        let table_size = 1usize << self.lg_size;
+        let mut result = vec![0; self.num_items as usize];
+        let mut i = 0usize;
+        let mut l = 0usize;
+        let mut r = self.num_items as usize - 1;
+        let ghost mut src: Seq<int> = Seq::new(n as nat, |k: int| 0int);
+
+        // special rules for the region before the first empty slot
+        let hi_bit = 1 << (self.num_valid_bits - 1);
+        proof { assert(pocc(ss.take(0)) =~= Set::<int>::empty()); }
+        while i < table_size && self.slots[i] != u32::MAX
+          invariant
+            ss == self.slots@, n == self.num_items, nvb == self.num_valid_bits, lg == self.lg_size, self.wf(), 1 <= n < ss.len(), table_size == ss.len(),
+            hi_bit == (1u32 << ((nvb - 1) as u8)),
+            i <= table_size, r < n, result@.len() == n,
+            pocc(ss.take(i as int)).len() == l + (n - 1 - r), l + (n - 1 - r) == i,
+            l == 0 && i > 0 ==> ss[0] != EMPTY && (ss[0] & hi_bit) != 0,
+            gi_inv(ss, result@, src, i as int, l as int, r as int),
+          decreases table_size - i
+        {
+            let item = self.slots[i];
+            proof { lemma_pocc_take_step(ss, i as int); lemma_pocc_take_le(ss, i as int + 1); }
+            i += 1;
+            if (item & hi_bit) != 0 {
+                // this item was probably wrapped, so move to end
+                proof {
+                    if l == 0 {
+                        lemma_hi_wrapped(ss, nvb, lg);
+                        if i < table_size { lemma_pocc_take_plus(ss, i as int, table_size - 1); }
+                    }
+                    lemma_gi_hi(ss, result@, src, i - 1, l as int, r as int);
+                    src = src.update(r as int, i - 1);
+                }
+                result[r] = item;
+                r -= 1;
+            } else {
+                proof { lemma_gi_lo(ss, result@, src, i - 1, l as int, r as int); src = src.update(l as int, i - 1); }
+                result[l] = item;
+                l += 1;
+            }
+        }
+
+        // the rest of the table is processed normally
+        while i < table_size
+          invariant
+            ss == self.slots@, n == self.num_items, 1 <= n, table_size == ss.len(),
+            i <= table_size, r < n, result@.len() == n,
+            pocc(ss.take(i as int)).len() == l + (n - 1 - r), n == pocc(ss).len(),
+            gi_inv(ss, result@, src, i as int, l as int, r as int),
+          decreases table_size - i
+        {
+            let item = self.slots[i];
+            proof { lemma_pocc_take_step(ss, i as int); lemma_pocc_take_le(ss, i as int + 1); }
+            i += 1;
+            if item != u32::MAX {
+                proof { lemma_gi_lo(ss, result@, src, i - 1, l as int, r as int); src = src.update(l as int, i - 1); }
+                result[l] = item;
+                l += 1;
+            } else {
+                proof { lemma_gi_skip(ss, result@, src, i - 1, l as int, r as int); }
+            }
+        }
+
+        proof { assert(ss.take(ss.len() as int) =~= ss); }
+        assert!(l == r + 1);
+        proof { lemma_gi_final(ss, result@, src, nvb, lg, l as int, r as int); }
+        result
+    }
+
     #[verifier::loop_isolation(false)]
     #[verifier::allow_complex_invariants]
     fn lookup(&self, item: u32) -> (r: u32)
@@ -451,7 +570,10 @@ impl PairTable {
 
     fn rebuild(&mut self, lg_size: u8)
       requires ptbl_ok(old(self).slots@, old(self).num_valid_bits, old(self).lg_size), old(self).num_items == pocc(old(self).slots@).len(),
-        2 <= lg_size <= 26, lg_size + 1 <= old(self).num_valid_bits, old(self).num_items < pow2(lg_size as nat),
+        // the three `assert!`s of the body, as preconditions (a caller that violates one panics: C17)
+        /*@C17.pairtable.rebuild.lg_size_assert,C05.pairtable.rebuild.pre*/ 2 <= lg_size <= 26,
+        /*@C17.pairtable.rebuild.valid_bits_assert,C05.pairtable.rebuild.pre*/ lg_size + 1 <= old(self).num_valid_bits,
+        /*@C17.pairtable.rebuild.size_assert,C05.pairtable.rebuild.pre*/ old(self).num_items < pow2(lg_size as nat),
       ensures ptbl_ok(final(self).slots@, final(self).num_valid_bits, final(self).lg_size), final(self).lg_size == lg_size,
         final(self).num_valid_bits == old(self).num_valid_bits, final(self).num_items == old(self).num_items,
         final(self).num_items == pocc(final(self).slots@).len(), final(self).items() == old(self).items(),
@@ -562,6 +684,128 @@ proof fn lemma_items_insert(ss0: Seq<u32>, ss1: Seq<u32>, item: u32, idx: int)
     }
 }
 
+spec fn pall_empty(ss: Seq<u32>, lg: u8) -> bool { ss.len() == pow2(lg as nat) && forall|i: int| 0 <= i < ss.len() ==> ss[i] == EMPTY }
+proof fn lemma_items_none(ss: Seq<u32>)
+  requires forall|i: int| 0 <= i < ss.len() ==> ss[i] == EMPTY
+  ensures ISet::new(|c: u32| c != EMPTY && pholds(ss, c)) =~= ISet::<u32>::empty()
+{
+    assert forall|c: u32| !(c != EMPTY && pholds(ss, c)) by {
+        if c != EMPTY && pholds(ss, c) { let i = choose|i: int| 0 <= i < ss.len() && ss[i] == c; assert(ss[i] == EMPTY); }
+    }
+}
+pub assume_specification<T: Clone> [ <[T]>::fill ] (s: &mut [T], value: T)
+  ensures final(s)@.len() == old(s)@.len(), forall|i: int| 0 <= i < old(s)@.len() ==> cloned::<T>(value, #[trigger] final(s)@[i]);
+// ================= unwrapping_get_items =================
+spec fn gfilled(k: int, l: int, r: int, n: int) -> bool { 0 <= k < n && (k < l || k > r) }
+spec fn gi_inv(ss: Seq<u32>, res: Seq<u32>, src: Seq<int>, i: int, l: int, r: int) -> bool {
+    let n = res.len() as int;
+    &&& src.len() == n && 0 <= i <= ss.len() && 0 <= l && r < n
+    &&& forall|k: int| gfilled(k, l, r, n) ==> 0 <= #[trigger] src[k] < i && ss[src[k]] != EMPTY && res[k] == ss[src[k]]
+    &&& forall|k1: int, k2: int| gfilled(k1, l, r, n) && gfilled(k2, l, r, n) && k1 != k2 ==> #[trigger] src[k1] != #[trigger] src[k2]
+    &&& forall|t: int| 0 <= t < i && #[trigger] ss[t] != EMPTY ==> exists|k: int| gfilled(k, l, r, n) && #[trigger] src[k] == t
+}
+proof fn lemma_gi_lo(ss: Seq<u32>, res: Seq<u32>, src: Seq<int>, i: int, l: int, r: int)
+  requires gi_inv(ss, res, src, i, l, r), i < ss.len(), ss[i] != EMPTY, l <= r
+  ensures gi_inv(ss, res.update(l, ss[i]), src.update(l, i), i + 1, l + 1, r)
+{
+    let n = res.len() as int; let res2 = res.update(l, ss[i]); let src2 = src.update(l, i);
+    assert forall|t: int| 0 <= t < i + 1 && #[trigger] ss[t] != EMPTY implies exists|k: int| gfilled(k, l + 1, r, n) && #[trigger] src2[k] == t by {
+        if t == i { assert(gfilled(l, l + 1, r, n) && src2[l] == t); }
+        else { let k = choose|k: int| gfilled(k, l, r, n) && #[trigger] src[k] == t; assert(gfilled(k, l + 1, r, n) && src2[k] == t); }
+    }
+    assert forall|k: int| gfilled(k, l + 1, r, n) implies 0 <= #[trigger] src2[k] < i + 1 && ss[src2[k]] != EMPTY && res2[k] == ss[src2[k]] by {
+        if k != l { assert(gfilled(k, l, r, n)); assert(src[k] == src2[k]); }
+    }
+    assert forall|k1: int, k2: int| gfilled(k1, l + 1, r, n) && gfilled(k2, l + 1, r, n) && k1 != k2 implies #[trigger] src2[k1] != #[trigger] src2[k2] by {
+        if k1 != l { assert(gfilled(k1, l, r, n)); assert(src[k1] == src2[k1]); }
+        if k2 != l { assert(gfilled(k2, l, r, n)); assert(src[k2] == src2[k2]); }
+    }
+}
+proof fn lemma_gi_hi(ss: Seq<u32>, res: Seq<u32>, src: Seq<int>, i: int, l: int, r: int)
+  requires gi_inv(ss, res, src, i, l, r), i < ss.len(), ss[i] != EMPTY, l <= r
+  ensures gi_inv(ss, res.update(r, ss[i]), src.update(r, i), i + 1, l, r - 1)
+{
+    let n = res.len() as int; let res2 = res.update(r, ss[i]); let src2 = src.update(r, i);
+    assert forall|t: int| 0 <= t < i + 1 && #[trigger] ss[t] != EMPTY implies exists|k: int| gfilled(k, l, r - 1, n) && #[trigger] src2[k] == t by {
+        if t == i { assert(gfilled(r, l, r - 1, n) && src2[r] == t); }
+        else { let k = choose|k: int| gfilled(k, l, r, n) && #[trigger] src[k] == t; assert(gfilled(k, l, r - 1, n) && src2[k] == t); }
+    }
+    assert forall|k: int| gfilled(k, l, r - 1, n) implies 0 <= #[trigger] src2[k] < i + 1 && ss[src2[k]] != EMPTY && res2[k] == ss[src2[k]] by {
+        if k != r { assert(gfilled(k, l, r, n)); assert(src[k] == src2[k]); }
+    }
+    assert forall|k1: int, k2: int| gfilled(k1, l, r - 1, n) && gfilled(k2, l, r - 1, n) && k1 != k2 implies #[trigger] src2[k1] != #[trigger] src2[k2] by {
+        if k1 != r { assert(gfilled(k1, l, r, n)); assert(src[k1] == src2[k1]); }
+        if k2 != r { assert(gfilled(k2, l, r, n)); assert(src[k2] == src2[k2]); }
+    }
+}
+proof fn lemma_gi_skip(ss: Seq<u32>, res: Seq<u32>, src: Seq<int>, i: int, l: int, r: int)
+  requires gi_inv(ss, res, src, i, l, r), i < ss.len(), ss[i] == EMPTY
+  ensures gi_inv(ss, res, src, i + 1, l, r)
+{ }
+proof fn lemma_gi_final(ss: Seq<u32>, res: Seq<u32>, src: Seq<int>, nvb: u8, lg: u8, l: int, r: int)
+  requires gi_inv(ss, res, src, ss.len() as int, l, r), l == r + 1, ptbl_ok(ss, nvb, lg)
+  ensures res.no_duplicates(), forall|x: u32| res.contains(x) <==> (x != EMPTY && pholds(ss, x))
+{
+    let n = res.len() as int;
+    assert forall|a: int, b: int| 0 <= a < n && 0 <= b < n && a != b implies res[a] != res[b] by {
+        assert(gfilled(a, l, r, n) && gfilled(b, l, r, n));
+        assert(src[a] != src[b]);
+        assert(ss[src[a]] != EMPTY);
+    }
+    assert forall|x: u32| res.contains(x) <==> (x != EMPTY && pholds(ss, x)) by {
+        if res.contains(x) { let k = choose|k: int| 0 <= k < n && res[k] == x; assert(gfilled(k, l, r, n)); assert(ss[src[k]] == x); }
+        if x != EMPTY && pholds(ss, x) {
+            let t = choose|t: int| 0 <= t < ss.len() && ss[t] == x;
+            assert(ss[t] != EMPTY);
+            let k = choose|k: int| gfilled(k, l, r, n) && #[trigger] src[k] == t;
+            assert(res[k] == x);
+        }
+    }
+}
+proof fn lemma_pocc_none(ss: Seq<u32>)
+  requires pocc(ss).len() == 0
+  ensures forall|i: int| 0 <= i < ss.len() ==> ss[i] == EMPTY
+{
+    assert forall|i: int| 0 <= i < ss.len() implies ss[i] == EMPTY by {
+        if ss[i] != EMPTY { assert(pocc(ss).contains(i)); pocc(ss).lemma_len0_is_empty(); }
+    }
+}
+proof fn lemma_pocc_take_plus(ss: Seq<u32>, k: int, p: int)
+  requires 0 <= k <= p < ss.len(), ss[p] != EMPTY
+  ensures pocc(ss.take(k)).len() + 1 <= pocc(ss).len()
+{
+    let a = pocc(ss.take(k)).insert(p);
+    assert(!pocc(ss.take(k)).contains(p));
+    assert(a.subset_of(pocc(ss)));
+    vstd::set_lib::lemma_len_subset(a, pocc(ss));
+}
+// an item with the top valid bit set that sits in slot 0 has wrapped around, so the last slot is occupied
+proof fn lemma_hi_wrapped(ss: Seq<u32>, nvb: u8, lg: u8)
+  requires ptbl_ok(ss, nvb, lg), ss[0] != EMPTY, (ss[0] & (1u32 << ((nvb - 1) as u8))) != 0
+  ensures ss[ss.len() - 1] != EMPTY
+{
+    let x = ss[0]; let n = ss.len() as int;
+    lemma_pow2_pos(lg as nat);
+    lemma_home_range(x, nvb, lg);
+    let h = phome(x, nvb, lg);
+    let s = (nvb - lg) as u32; let b = (nvb - 1) as u32;
+    assert(s <= b && b < 32 && (x & (1u32 << b)) != 0 ==> (x >> s) != 0) by (bit_vector);
+    assert((1u32 << b) == (1u32 << ((nvb - 1) as u8)));
+    assert(h >= 1);
+    assert(preach_at(ss, nvb, lg, 0));
+    let j = choose|j: int| 0 <= j < ss.len() && 0 == ppos(ss[0], nvb, lg, j, n) && pfull_before(ss, ss[0], nvb, lg, j);
+    lemma_fundamental_div_mod(h + j * 1, n);
+    let q = (h + j * 1) / n;
+    assert(h + j == n * q);
+    if q <= 0 { assert(n * q <= 0) by (nonlinear_arith) requires q <= 0, n > 0; }
+    if q >= 2 { assert(n * q >= 2 * n) by (nonlinear_arith) requires q >= 2, n > 0; }
+    assert(q == 1);
+    assert(n * q == n) by (nonlinear_arith) requires q == 1;
+    assert(j >= 1);
+    assert(ss[ppos(x, nvb, lg, j - 1, n)] != EMPTY);
+    lemma_small_mod((n - 1) as nat, n as nat);
+    assert(h + (j - 1) * 1 == n - 1);
+}
 proof fn lemma_pshl_usize(l: u8) requires l <= 26 ensures ((1u32 << l) as usize) == pow2(l as nat) { lemma_pshl(l); }
 proof fn lemma_pempty_ok(ss: Seq<u32>, nvb: u8, lg: u8)
   requires 2 <= lg <= 26, lg < nvb <= 32, ss.len() == pow2(lg as nat), forall|i: int| 0 <= i < ss.len() ==> ss[i] == EMPTY
